@@ -35,7 +35,7 @@ ASSUMPTIONS = [
     'fills the first k NaN of a column; DESIGN section 4). Sub-check const_limit covers constants with limit 1/2/3 and asserts only the unconditional clauses: '
     'array result == .values of every pandas result, non-NaN cells unchanged, every filled cell equals a constant of the list (or, after ffill/bfill in the '
     'list, a value of its column), shape kept, arguments unmodified',
-    "'ffill_na' / 'ffill_0' stand alone or first in a list (later in a list they read the last valid index of the ORIGINAL input; DESIGN section 4)",
+    "'ffill_na' / 'ffill_0' stand alone, first in a list, or after row drops only (nona / fnna); after a FILL method they read the last valid index of the ORIGINAL input, which differs from 'in sequence' (DESIGN section 4): not generated",
     "'ffill_na' / 'ffill_0' on a column without any valid observation: the column may stay NaN or (ffill_0) become all 0 - the statement does not say",
     'pandas inputs have a non-decreasing index: the default RangeIndex, a daily DatetimeIndex, integer labels not starting at 0, dates with gaps, '
     'and (with the two restrictions below) repeated integer / date labels; column labels may be unsorted, prefixes of one another, duplicated or integers. '
@@ -549,7 +549,11 @@ def run_fillna(spec):
             cls.append('m=const_zero')                        # falsy method
     fills = [m for m in methods if m in FILLS or m in TAILS]
     run_gt_limit = limit is not None and bool(fills) and info['maxrun'] > limit
-    tail = bool(methods) and methods[0] in TAILS and info['trailing']
+    tail = bool(methods) and (methods[0] in TAILS or (any(m in TAILS for m in methods) and all(m in DROPS for m in methods[:[m in TAILS for m in methods].index(True)]))) and info['trailing']
+    if any(m in TAILS for m in methods) and methods[0] in DROPS:
+        cls.append('tail_fill_after_row_drop')
+        if info['trailing']:
+            cls.append('tail_fill_after_row_drop:trailing_nan')
     rowdrop = dim == 2 and info['allnan_row'] and any(m in DROPS for m in methods)
     if run_gt_limit:
         cls.append('run_longer_than_limit')
@@ -831,12 +835,16 @@ def _fillna_case(draw, tier):
     near = sorted(set(l + d for l in runs for d in (-1, 0, 1) if l + d >= 1))
     limit = draw(st.sampled_from(([None, None, 1, 2] + near[-8:]) if long else ([None, None, None, 1, 2, 3] + near[:4] + near[-4:])))
     step = _STEP if limit is not None else st.one_of(_STEP, _STEP, _CONST)
-    shape = draw(st.sampled_from(['single'] * 4 + ['list'] * 4 + ['tail_list'] * 2 + ['none']))
+    shape = draw(st.sampled_from(['single'] * 4 + ['list'] * 4 + ['tail_list'] * 2 + ['drop_then_tail'] * 2 + ['none']))
     bare = draw(st.booleans())
     if shape == 'none':
         methods = []
     elif shape == 'single':
         methods = [draw(st.one_of(step, st.sampled_from(TAILS)))]
+    elif shape == 'drop_then_tail':
+        # a tail fill after row drops only: rows are removed, no cell is filled, so 'the last valid observation' is the same row whether it is
+        # read off the input or off the intermediate result (after a FILL the two readings differ: not generated, see ASSUMPTIONS)
+        methods = draw(st.lists(st.sampled_from(DROPS), min_size=1, max_size=2)) + [draw(st.sampled_from(TAILS))] + draw(st.lists(step, max_size=1))
     elif shape == 'list' or (dim == 2 and 'K3' in EXCLUDED):
         methods = draw(st.lists(step, min_size=2, max_size=3))
     else:
@@ -938,14 +946,14 @@ SUBS = [
         rule='vectors and 1-3 column frames from a NaN-run grammar (alternating NaN/value runs of length 0-4, <= 20 rows; further '
              'columns share the mask, follow their own grammar or are all-NaN) and, one case in seven, LONG inputs of exactly 64/65/100/128/200/257 rows '
              '(run-length coded, runs of 1..130 around the powers of two); method = None, one of ffill/bfill/constant/nona/fnna/ffill_na/ffill_0, '
-             'a list of 2-3 of ffill/bfill/constant/nona/fnna, or ffill_na/ffill_0 followed by 1-2 of them; limit None/1/2/3 or a NaN-run length -1/+0/+1; '
+             'a list of 2-3 of ffill/bfill/constant/nona/fnna, or ffill_na/ffill_0 followed by 1-2 of them, or 1-2 row drops (nona/fnna) then ffill_na/ffill_0 then at most one more; limit None/1/2/3 or a NaN-run length -1/+0/+1; '
              'each case on the ndarray, the RangeIndex object, the daily DatetimeIndex object and a fourth object with integer labels not starting at 0 / gapped '
              'dates / repeated labels; frame columns also unsorted, prefix-named, duplicated, integers. Oracle: NaN-run walker per column (fill iff a source '
              'lies within limit, nothing else changes), all-NaN-row dropping with index labels, array == .values of pandas result, arguments bit-identical '
              'afterwards. non-trivial = a NaN run longer than limit under a fill, or a trailing run under '
              'ffill_na/ffill_0, or an all-NaN row in a frame, or empty / all-NaN input; distinct = distinct spec',
         floor=0.3, class_floors={'run_longer_than_limit': 0.06, 'tail_fill_with_trailing_run': 0.02, 'allnan_row_2d': 0.1, 'empty': 0.02,
-                                 'all_nan': 0.02, 'rows_dropped': 0.08, 'm=ffill_0': 0.03, 'm=ffill_na': 0.03, 'm=const': 0.08,
+                                 'tail_fill_after_row_drop': 0.04, 'tail_fill_after_row_drop:trailing_nan': 0.015, 'all_nan': 0.02, 'rows_dropped': 0.08, 'm=ffill_0': 0.03, 'm=ffill_na': 0.03, 'm=const': 0.08,
                                  'interior_run': 0.2, 'partial_nan_row_2d': 0.08,
                                  'rows>=64': 0.08, 'rows=64|65|100|128': 0.04, 'rows>=200': 0.02, 'nan_run>=32': 0.04, 'limit>=32_and_longer_run': 0.004,
                                  'limit==run_length': 0.04, 'limit==run_length-1': 0.03, 'ix_duplicate_labels': 0.1, 'ix=int_unique': 0.15,
